@@ -209,7 +209,7 @@ MinBins == {<<Zero, Zero>>, <<R(1, 8), R(1, 8)>>, <<Zero, R(1, 4)>>} \cup (IF Ri
 
 Boxes ==   \* [left, right, bottom, top, tails]
   { [left |-> Zero, right |-> One, bottom |-> Zero, top |-> One, tails |-> FALSE],
-    [left |-> R(-1, 1), right |-> Two, bottom |-> Zero, top |-> R(4, 1), tails |-> FALSE],
+    [left |-> R(-3, 1), right |-> R(-1, 1), bottom |-> R(-1, 1), top |-> Zero, tails |-> FALSE],   \* ends at or below zero; wider than its image
     [left |-> R(-1, 1), right |-> One, bottom |-> R(-1, 1), top |-> One, tails |-> TRUE],
     [left |-> R(-11, 10), right |-> R(11, 10), bottom |-> R(-11, 10), top |-> R(11, 10), tails |-> TRUE] }   \* 11/10 is not a float: float32 rounds it up
 BigBox == [left |-> R(-64, 1), right |-> R(64, 1), bottom |-> R(-64, 1), top |-> R(64, 1), tails |-> TRUE]
